@@ -3,6 +3,8 @@
 package ast
 
 import (
+	"strings"
+
 	"github.com/xjslang/xjs/token"
 )
 
@@ -326,7 +328,8 @@ func (sl *MultiStringLiteral) WriteTo(cw *CodeWriter) {
 	cw.WriteLeadingComments(sl.Token.LeadingComments)
 	cw.AddMapping(sl.Token.Start)
 	cw.WriteRune('`')
-	cw.WriteString(sl.Value)
+	// the lexer decodes an escaped backtick; escape it again
+	cw.WriteString(strings.ReplaceAll(sl.Value, "`", "\\`"))
 	cw.WriteRune('`')
 }
 
